@@ -16,6 +16,7 @@ import (
 	"fmt"
 	"os"
 	"strings"
+	"syscall"
 	"time"
 
 	"github.com/richardwilkes/toolbox/eval"
@@ -317,10 +318,21 @@ type guarded struct {
 	seen  map[string]bool
 }
 
+// A line hangs when the process has burnt cpuDeadline of CPU time on it (a loop; wall time alone would raise false
+// alarms on a starved machine) or when wallDeadline has passed (a dead-lock).
 const (
-	lineDeadline = 4 * time.Second
+	cpuDeadline  = 2 * time.Second
+	wallDeadline = 40 * time.Second
 	hangFile     = "c09-hangs.txt"
 )
+
+func cpuTime() time.Duration {
+	var ru syscall.Rusage
+	if err := syscall.Getrusage(syscall.RUSAGE_SELF, &ru); err != nil {
+		return 0
+	}
+	return time.Duration(ru.Utime.Nano() + ru.Stime.Nano())
+}
 
 func (g *guarded) Gen(r *hx.Rng, n int, tier string, emit func(string)) {
 	g.mk().Gen(r, n, tier, emit)
@@ -356,17 +368,26 @@ func (g *guarded) Run(line string) string {
 		}()
 		done <- inner.Run(line)
 	}()
-	select {
-	case out := <-done:
-		return out
-	case <-time.After(lineDeadline):
-		g.hangs++
-		g.inner = nil // the abandoned goroutine still owns the evaluators of this instance
-		if f, err := os.OpenFile(hangFile, os.O_APPEND|os.O_CREATE|os.O_WRONLY, 0o644); err == nil {
-			_, _ = f.WriteString(key + "\n")
-			_ = f.Close()
+	cpu0, wall0 := cpuTime(), time.Now()
+	tick := time.NewTimer(50 * time.Millisecond)
+	defer tick.Stop()
+	for {
+		select {
+		case out := <-done:
+			return out
+		case <-tick.C:
+			if cpuTime()-cpu0 < cpuDeadline && time.Since(wall0) < wallDeadline {
+				tick.Reset(100 * time.Millisecond)
+				continue
+			}
+			g.hangs++
+			g.inner = nil // the abandoned goroutine still owns the evaluators of this instance
+			if f, err := os.OpenFile(hangFile, os.O_APPEND|os.O_CREATE|os.O_WRONLY, 0o644); err == nil {
+				_, _ = f.WriteString(key + "\n")
+				_ = f.Close()
+			}
+			return "hang"
 		}
-		return "hang"
 	}
 }
 
